@@ -367,3 +367,31 @@ mod tests {
         }
     }
 }
+
+/// Verification hooks (C35): read-only views of the size-class table, the bin function and the
+/// constants that bound them. Nothing here is used by MMTk itself.
+#[cfg(mmtk_verif)]
+pub mod verif_sizeclass {
+    use super::*;
+
+    /// `mi_bin_from_size` (private) for an arbitrary byte size.
+    pub fn verif_mi_bin_from_size(size: usize) -> usize {
+        mi_bin_from_size(size)
+    }
+
+    /// The cell sizes of a freshly created `BlockLists`, index = bin (bin 0 is the reserved one).
+    pub fn verif_size_class_table() -> Vec<usize> {
+        new_empty_block_lists().iter().map(|l| l.size).collect()
+    }
+
+    /// (MAX_BIN, MAX_BIN_SIZE, MI_LARGE_OBJ_SIZE_MAX, Block::BYTES, MI_INTPTR_SIZE)
+    pub fn verif_ms_consts() -> (usize, usize, usize, usize, usize) {
+        (
+            MAX_BIN,
+            MAX_BIN_SIZE,
+            MI_LARGE_OBJ_SIZE_MAX,
+            Block::BYTES,
+            MI_INTPTR_SIZE,
+        )
+    }
+}
